@@ -27,6 +27,16 @@ func runC05(c *Ctx, r *Report) {
 		return
 	}
 	sizeCRC, _ := c.constInt(c.fit, "headerSizeCRC")
+	// the tail of Encode (size, header, checksums, output) may live in a helper that Encode returns
+	// the result of: analyse the function that holds it, the callers' part is checked by encodeUnit
+	unit := c.encodeUnit()
+	if unit == nil {
+		r.fail("C05-anchors", "Encode/tail", c.pos(enc.Pos()), "no function on Encode's tail-call chain stores the file's Header.DataSize")
+		return
+	}
+	top := enc
+	enc = unit.fn
+	fileP := unit.file
 	// ---- R1 ------------------------------------------------------------------------------
 	succ := c.successReturns(enc)
 	var marshal ssa.Instruction
@@ -40,8 +50,8 @@ func runC05(c *Ctx, r *Report) {
 		for _, ins := range b.Instrs {
 			if st, ok := ins.(*ssa.Store); ok {
 				p := pathOf(st.Addr)
-				if strings.HasPrefix(p, "file.") {
-					stores[p] = append(stores[p], st)
+				if strings.HasPrefix(p, fileP+".") {
+					stores["file."+p[len(fileP)+1:]] = append(stores["file."+p[len(fileP)+1:]], st)
 				}
 			}
 		}
@@ -69,7 +79,7 @@ func runC05(c *Ctx, r *Report) {
 		for _, st := range stores["file.Header.CRC"] {
 			v := pathOf(st.Val)
 			fromHdr := marshal != nil && strings.Contains(v, "extract#0(call[") && strings.Contains(v, "MarshalBinary") && strings.Contains(v, ".Uint16")
-			guarded := domByCmpConst(enc, st.Block(), "*file.Header.Size", token.EQL, sizeCRC, true)
+			guarded := domByCmpConst(enc, st.Block(), "*"+fileP+".Header.Size", token.EQL, sizeCRC, true)
 			// success returns not dominated by the store must be on the Size != 14 side: i.e. all success returns are
 			// reachable from marshal only via store or via the false edge
 			bar := map[ssa.Instruction]bool{st: true}
@@ -154,6 +164,20 @@ func runC05(c *Ctx, r *Report) {
 				late = calleeName(ci.Common()) + " at " + c.pos(ci.Pos())
 			}
 		}
+		// record writes in the callers on the chain come before the tail call
+		for i, caller := range unit.chain {
+			for _, ci := range allCalls(caller) {
+				f := ci.Common().StaticCallee()
+				if f == nil || ci == unit.tail[i] {
+					continue
+				}
+				writesBuf := (f.Signature.Recv() != nil && strings.Contains(f.Signature.Recv().Type().String(), ".encoder")) || strings.HasPrefix(f.String(), "(*bytes.Buffer).Write")
+				if writesBuf && !instrDominates(ci, unit.tail[i]) {
+					late = calleeName(ci.Common()) + " at " + c.pos(ci.Pos())
+				}
+			}
+		}
+		_ = top
 		r.check(okOrder && late == "", "C05-R2-ordering", "Encode/records-before-size", c.pos(dsStore.Pos()), "every record write dominates the DataSize store, which dominates MarshalBinary", "a record is written after the data size was taken or the header is marshalled before the size is known: "+late)
 	}
 
@@ -324,6 +348,9 @@ func c05Headers(c *Ctx, r *Report) {
 			ast.Inspect(s, func(nd ast.Node) bool {
 				if call, ok := nd.(*ast.CallExpr); ok && isPkgFunc(callee(info, call), "encoding/binary", "Write") && len(call.Args) == 3 {
 					a := strings.ReplaceAll(exprStr(call.Args[2]), " ", "")
+					if v, isConst := exprInt(info, call.Args[2]); isConst {
+						a = fmt.Sprintf("const %d", v) // a literal, a conversion of one or a named constant: the value is what is written
+					}
 					if !strings.HasSuffix(exprStr(call.Args[1]), ".arch") {
 						a += "@fixed-order"
 					}
@@ -334,7 +361,7 @@ func c05Headers(c *Ctx, r *Report) {
 		}
 	}
 	got := strings.Join(seq, " | ")
-	want := "hdr | byte(0) | arch | def.globalMesgNum | byte(len(def.fields)) | fields"
+	want := "hdr | const 0 | arch | def.globalMesgNum | byte(len(def.fields)) | fields"
 	r.check(got == want, "C05-R3-def-layout", "writeDefMesg/sequence", c.pos(fd.Pos()), got, "definition record is written as ["+got+"], FIT layout is ["+want+"]")
 	okArch := archMap["binary.LittleEndian"] == "0" && archMap["binary.BigEndian"] == "1" && len(archMap) == 2
 	le0, _ := c.constInt(c.fit, "littleEndian")
@@ -396,7 +423,12 @@ func c05Sizes(c *Ctx, r *Report) {
 				var sb strings.Builder
 				ast.Inspect(n, func(x ast.Node) bool {
 					if a, ok := x.(*ast.AssignStmt); ok {
-						sb.WriteString(strings.ReplaceAll(exprStr(a.Lhs[0])+"="+exprStr(a.Rhs[0]), " ", "") + ";")
+						rhs := exprStr(a.Rhs[0])
+						if a.Tok != token.ASSIGN && a.Tok != token.DEFINE {
+							// x op= y is x = x op y
+							rhs = exprStr(a.Lhs[0]) + strings.TrimSuffix(a.Tok.String(), "=") + rhs
+						}
+						sb.WriteString(strings.ReplaceAll(exprStr(a.Lhs[0])+"="+rhs, " ", "") + ";")
 					}
 					return true
 				})
@@ -1019,4 +1051,75 @@ func c05CellTypestate(c *Ctx, fn *ssa.Function, cell *ssa.Alloc) map[string]stri
 		}
 	}
 	return res
+}
+
+// encUnit: where the tail of Encode lives. chain[i] calls tail[i] (a call whose result it returns on
+// every success path and to which it hands its own *File parameter); the last callee is fn.
+type encUnit struct {
+	fn    *ssa.Function
+	file  string // name of fn's *File parameter
+	chain []*ssa.Function
+	tail  []ssa.CallInstruction
+}
+
+func (c *Ctx) encodeUnit() *encUnit {
+	fn := c.ssaFn(c.fn(c.fit, "Encode"))
+	if fn == nil {
+		return nil
+	}
+	fileParam := func(f *ssa.Function) *ssa.Parameter {
+		for _, p := range f.Params {
+			if pt, ok := p.Type().(*types.Pointer); ok {
+				if n, ok := pt.Elem().(*types.Named); ok && n.Obj().Name() == "File" && n.Obj().Pkg() != nil && n.Obj().Pkg().Path() == modPath {
+					return p
+				}
+			}
+		}
+		return nil
+	}
+	u := &encUnit{}
+	for depth := 0; depth < 4; depth++ {
+		fp := fileParam(fn)
+		if fp == nil {
+			return nil
+		}
+		for _, b := range fn.Blocks {
+			for _, ins := range b.Instrs {
+				if st, ok := ins.(*ssa.Store); ok && pathOf(st.Addr) == fp.Name()+".Header.DataSize" {
+					u.fn, u.file = fn, fp.Name()
+					return u
+				}
+			}
+		}
+		// tail call: every success return returns the result of one call that is given the file
+		var tail ssa.CallInstruction
+		ok := true
+		nret := 0
+		for _, ret := range c.successReturns(fn) {
+			nret++
+			call, isCall := ret.Results[len(ret.Results)-1].(*ssa.Call)
+			if !isCall || (tail != nil && tail != ssa.CallInstruction(call)) {
+				ok = false
+				break
+			}
+			tail = call
+		}
+		if !ok || tail == nil || nret == 0 {
+			return nil
+		}
+		callee := tail.Common().StaticCallee()
+		given := false
+		for _, a := range tail.Common().Args {
+			if a == ssa.Value(fp) {
+				given = true
+			}
+		}
+		if callee == nil || !given || !strings.HasPrefix(fnPkgPath(callee), modPath) {
+			return nil
+		}
+		u.chain = append(u.chain, fn)
+		u.tail = append(u.tail, tail)
+		fn = callee
+	}
+	return nil
 }
